@@ -125,6 +125,12 @@ def run(ctx):
             n_refuse += 1
             ctx.check(ret_kind(v) == 'err' and not wcalls, 'R11.2', 'refuse', 'other event kinds are refused with Err and write nothing', rw.where(),
                       'RdpClient::write does not refuse an unsupported event kind cleanly (returns %s, transport calls %s)' % (ret_kind(v), [e[1].callee for e in wcalls]))
+            # the refusal must stay visible through try_write, which forgives exactly InvalidAutomata (R12.3)
+            kinds = [unwrap_cast(c[3][0])[2] if unwrap_cast(c[3][0])[0] == 'agg' else None
+                     for c in calls_in(resolve(st, v), 'model::error::RdpError::new') if c[0] == 'call']
+            ctx.check(bool(kinds) and 'InvalidAutomata' not in kinds and None not in kinds, 'R11.2', 'refuse:kind',
+                      'the refusal carries an error kind that try_write does not forgive (%s)' % kinds, rw.where(),
+                      'RdpClient::write refuses an unsupported event with kind %s: try_write maps InvalidAutomata to Ok(()), so the refusal is reported as success' % kinds)
     ctx.check(seen_ptr == {(b, d) for b in PTR for d in (True, False)}, 'R11.3', 'pointer:coverage',
               'all 4 buttons x 2 press states are encoded on a distinct path', rw.where(),
               'RdpClient::write does not distinguish all button/press combinations (found %s)' % sorted(seen_ptr, key=str))
@@ -133,13 +139,27 @@ def run(ctx):
 
     # ---- R11.3b field mapping inside the constructors ------------------------------------------------
     def field_src(fn, key, param):
+        """on every path the field is the parameter passed through unchanged: Option::unwrap_or(param, 0) wrapped in the wire type,
+        no arithmetic / bit operation / other parameter / value computed elsewhere"""
+        n_sh = 0
         for sh, fl in dsl.returned_components(P, fn):
+            n_sh += 1
             f = [x for x in fl if x.key == key]
             if not f:
                 return False
-            if not any(n == ('param', param) for n in walk(f[0].expr)):
+            nodes = list(walk(f[0].expr))
+            if not any(n == ('param', param) for n in nodes):
                 return False
-        return True
+            for n in nodes:
+                if n[0] in ('bin', 'un', 'unknown', 'mutated', 'index', 'upd'):
+                    return False
+                if n[0] == 'param' and n[1] != param:
+                    return False
+                if n[0] == 'call' and not re.search(r'Option::<T>::unwrap_or$|::to_vec$|::into$|::from$|::new$', n[1]):
+                    return False
+                if n[0] == 'const' and n[1] not in (0, None):
+                    return False
+        return n_sh > 0
     for fn, key, param in (('core::global::ts_pointer_event', 'pointerFlags', 1), ('core::global::ts_pointer_event', 'xPos', 2),
                            ('core::global::ts_pointer_event', 'yPos', 3), ('core::global::ts_keyboard_event', 'keyboardFlags', 1),
                            ('core::global::ts_keyboard_event', 'keyCode', 2), ('core::global::ts_input_event', 'messageType', 1),
